@@ -13,7 +13,9 @@
       badpath     a path the traversal model does not follow (empty component, negative index)
       dollarkey   a `$`-prefixed sort key other than a lone `$natural`
       negskip     a negative skip (MongoDB rejects it; Python slices from the end)
-      negstage    a negative `$skip` / `$limit` argument (MongoDB rejects it)
+    (`negstage` — a negative `$skip` / `$limit` argument, which the code used to take as a Python
+    slice — is gone: since fix 2ed0182 the code rejects it as MongoDB does, and `$limit: 0` too;
+    `Spec.Order.runStages` says so)
       badlimit    count_documents with a limit that is not a positive number (both raise)
 -/
 import Spec.Order
@@ -67,8 +69,8 @@ def findReasons (s0 : Settings) (ops : List CurOp) (docs : List Val) : List Stri
 
 def stageReasons (docs : List Val) : Stage → List String
   | .sort spec => specReasons spec docs
-  | .skip n => if n < 0 then ["negstage"] else []
-  | .limit n => if n < 0 then ["negstage"] else []
+  | .skip _ => []           -- (a negative count is rejected by the rules and by the code)
+  | .limit _ => []
 
 def pipelineReasons (stages : List Stage) (docs : List Val) : List String :=
   stages.flatMap (stageReasons docs)
